@@ -313,7 +313,13 @@ def evaluate(g, rec, collect):
             ok_c, fresh = call(rec, case, name + " (fresh copies)", fn, Kb.copy(), Sab.copy(),
                                Syb.copy(), *extra)
             rec.count("history.inplace_input_calls")
-            if ok_a and ok_b and ok_c and not np.array_equal(np.asarray(again), np.asarray(fresh)):
+            # (not bit for bit: BLAS may pick other kernels for other buffers; a stale intermediate is
+            # off by O(1), the in-place updates scale the inputs by 4, 1/2 or 1/4)
+            fr = np.asarray(fresh, dtype=float)
+            if ok_a and ok_b and ok_c and not (
+                    np.shape(again) == fr.shape
+                    and np.allclose(np.asarray(again, dtype=float), fr, rtol=1e-9,
+                                    atol=1e-9 * float(np.max(np.abs(fr))) if fr.size else 0.0)):
                 collect("stale-state", {"function": name,
                                         "why": "same argument objects updated in place: answer differs "
                                                "from the one for fresh copies of the same values",
